@@ -896,42 +896,6 @@ Proof.
     cbn [ke_rank ke_lens rev app]. unfold zlen at 1. cbn [length]. rewrite Hr. reflexivity.
 Qed.
 
-(** * The strip-mining loop of copy_sds visits every cell of the array exactly once, in row-major order *)
-Definition small_ext : list Z := [1; 2; 3; 4].
-Definition small_dims : list (list Z) :=
-  map (fun a => [a]) small_ext ++
-  flat_map (fun a => map (fun b => [a; b]) small_ext) small_ext ++
-  flat_map (fun a => flat_map (fun b => map (fun c => [a; b; c]) small_ext) small_ext) small_ext ++
-  flat_map (fun a => flat_map (fun b => flat_map (fun c => map (fun d => [a; b; c; d]) [1; 2; 3]) [1; 2; 3]) [1; 2; 3])
-           [1; 2; 3].
-Definition small_bufs : list Z := zcount 1 16.
-
-Definition strip_ok (dims : list Z) (eltsz buf : Z) : bool :=
-  match strip_order dims eltsz buf with
-  | Some l => str_eqb l (zcount 0 (Z.to_nat (zprod dims)))
-  | None => false
-  end.
-
-Definition strips_all_ok : bool :=
-  forallb (fun d => forallb (fun e => forallb (fun b => (b <? e) || strip_ok d e b) small_bufs) [1; 2]) small_dims.
-
-Lemma strips_all_ok_true : strips_all_ok = true.
-Proof. vm_compute. reflexivity. Qed.
-
-Lemma strips_partition_small_lemma : forall dims eltsz buf,
-  In dims small_dims -> In eltsz [1; 2] -> In buf small_bufs -> eltsz <= buf ->
-  strip_order dims eltsz buf = Some (zcount 0 (Z.to_nat (zprod dims))).
-Proof.
-  intros dims eltsz buf Hd He Hb Hle.
-  pose proof strips_all_ok_true as H. unfold strips_all_ok in H.
-  rewrite forallb_forall in H. specialize (H _ Hd). clear Hd.
-  rewrite forallb_forall in H. specialize (H _ He). clear He.
-  rewrite forallb_forall in H. specialize (H _ Hb). clear Hb.
-  apply orb_true_iff in H. destruct H as [H|H]; [apply Z.ltb_lt in H; lia|].
-  unfold strip_ok in H. destruct (strip_order dims eltsz buf) as [l|]; [|discriminate].
-  apply str_eqb_eq in H. rewrite H. reflexivity.
-Qed.
-
 (** * The option table answers lookups with the last request naming the object *)
 Lemma str_eqb_spec : forall a b, str_eqb a b = true <-> a = b.
 Proof. intros; split; [apply str_eqb_eq | intro; subst; apply str_eqb_refl]. Qed.
